@@ -138,9 +138,14 @@ def rule_props(R):
     for v in variants:
         tgt = ssi["edges"].get(v)
         others = [t for k, t in ssi["edges"].items() if k != v]
-        arm = ser.reach([tgt]) - ser.reach(others) if tgt is not None else set()
+        # everything reachable from this variant's edge (arms may be shared by an or-pattern: `A(x) | B(x) => write(x)`)
+        arm = ser.reach([tgt]) if tgt is not None else set()
         elems = sorted([c for c in ser.calls.values() if c.bb in arm and c.is_("serialize_element")], key=lambda c: c.bb)
-        ws = [wire_of_written(f, ser.operand_term(c.args[1])) for c in elems]
+        # the element's type as the compiler resolved it (serialize_element::<T>); the term only as a fallback
+        ws = []
+        for c in elems:
+            g_ = wire_of_read(c.gargs[-1]) if c.gargs else "?"
+            ws.append(g_ if not g_.startswith("?") else wire_of_written(f, ser.operand_term(c.args[1])))
         # the element must be the variant's own payload
         own = all(any(x[0] == "downcast" and x[2] == v for x in walk(ser.operand_term(c.args[1]))) for c in elems)
         written[v] = ("utf8pair" if ws == ["utf8", "utf8"] else (ws[0] if len(ws) == 1 else "?" + ",".join(ws))) if own else "?foreign"
